@@ -4,6 +4,7 @@ import (
 	"encoding/binary"
 	"fmt"
 	"io"
+	"math"
 
 	"google.golang.org/protobuf/proto"
 )
@@ -43,6 +44,13 @@ func WriteMessage(msg proto.Message, w io.Writer) error {
 	return nil
 }
 
+const (
+	// maxMessageSize is the largest message ReadMessage accepts.
+	maxMessageSize = math.MaxInt32
+	// maxInitialBufferSize is the largest buffer allocated before any data of a message has been read.
+	maxInitialBufferSize = 1 << 20
+)
+
 // Read a message from io.ByteReader by first reading a varint size,
 // and then reading and decoding the message object.
 // If buf is not big enough a new buffer will be allocated to replace buf.
@@ -51,13 +59,33 @@ func ReadMessage(buf *[]byte, r ByteReadReader, msg proto.Message) error {
 	if err != nil {
 		return err
 	}
-	if cap(*buf) < int(size) {
-		*buf = make([]byte, size)
+	if size > maxMessageSize {
+		return fmt.Errorf("message size %d exceeds the maximum of %d bytes", size, maxMessageSize)
 	}
-	b := (*buf)[:size]
+	// Do not trust the announced size with a huge allocation up front,
+	// the buffer grows as the data actually arrives.
+	l := size
+	if l > maxInitialBufferSize && uint64(cap(*buf)) < size {
+		l = maxInitialBufferSize
+	}
+	if uint64(cap(*buf)) < l {
+		*buf = make([]byte, l)
+	}
+	b := (*buf)[:l]
 	read := uint64(0)
 
 	for read != size {
+		if read == uint64(len(b)) {
+			// Grow the buffer
+			l = 2 * uint64(len(b))
+			if l > size {
+				l = size
+			}
+			nb := make([]byte, l)
+			copy(nb, b)
+			b = nb
+			*buf = nb
+		}
 		n, err := r.Read(b[read:])
 		if err == io.EOF {
 			return fmt.Errorf("unexpected EOF, expected %d more bytes", size)
